@@ -16,6 +16,7 @@
 -/
 import AcnProofs.Lemmas.ResumeRun
 import AcnProofs.Lemmas.RegistryRoundtrip
+import AcnProofs.Lemmas.RegistryCodec
 import AcnModel.Gen.Serial
 
 set_option linter.unusedSectionVars false
@@ -238,6 +239,53 @@ theorem roundtrip_resume_eq_partial {K : Type} [Add K] [Sub K] [Mul K] [Div K] [
   obtain ⟨ctx, h1, h2, _, h4⟩ := roundtrip_store hac hcl
   have : decode ctx root = some s := by rw [hlocal (encode s) ctx h4, hinv]
   exact ⟨ctx, h1, h2, this, fun n => by rw [this]; rfl⟩
+
+/-! ### the concrete codec (`AcnModel/RegistrySim.lean`, tied to `to_json()` by the correspondence) -/
+
+/-- The store that the model writes for ANY simulator state — Simulator → network → EVSEs → EV →
+    battery, queue → events → the same EVs, ev_history, event_history — is acyclic and closed, so
+    `to_json` then `from_json` reproduces it: every object once, same attributes, and the EV of a
+    session is ONE loaded object however many references (station, ev_history, pending and past
+    events) lead to it.  No hypothesis on the state. -/
+theorem encode_roundtrip {K : Type} (sh : RegistrySim.Show K) (cfg : Sim.Cfg K) (s : State K) :
+    ∃ ctx, dump (RegistrySim.encode sh cfg s) RegistrySim.root = .ok ctx ∧ load ctx RegistrySim.root = .ok ctx ∧
+      ctx.keys.Nodup ∧
+      (∀ j, j ∈ ctx.keys ↔ Reach (RegistrySim.encode sh cfg s) RegistrySim.root j) ∧
+      (∀ j, Reach (RegistrySim.encode sh cfg s) RegistrySim.root j →
+        ctx.get j = some (RegistrySim.objAt sh cfg s j)) ∧
+      (∀ a b, Reach (RegistrySim.encode sh cfg s) RegistrySim.root a →
+        Reach (RegistrySim.encode sh cfg s) RegistrySim.root b → (addr ctx a = addr ctx b ↔ a = b)) := by
+  have hac := RegistrySim.encode_acyclic sh cfg s
+  have hcl := RegistrySim.encode_closed sh cfg s
+  obtain ⟨ctx, h, hs⟩ := dump_spec hac hcl
+  refine ⟨ctx, h, load_dump hac h hs, hs.ok.nodup, hs.reach, ?_, ?_⟩
+  · intro j hj
+    rw [hs.same j hj, RegistrySim.get_encode,
+      if_pos (RegistrySim.reach_lt sh cfg s (RegistrySim.root_lt cfg s) hj)]
+  · intro a b ha hb
+    exact addr_eq_iff ((hs.reach a).2 ha) ((hs.reach b).2 hb)
+
+/-
+  Full statement `roundtrip_resume_eq` (not proved): for the decoder that follows the `_from_dict`s,
+      decode (load (dump (encode cfg s))) = some s   (for well-formed s: every event's / occupant's
+      session has an EV object), hence the resumed runs are equal.
+  Proved here: the two store-level hypotheses of `roundtrip_resume_eq_partial` (acyclic, closed) hold
+  for the CONCRETE `encode`, for every state; what remains hypothetical is the decoder (it reads only
+  reachable objects and inverts `encode`).  That `encode` is what the code writes is checked against
+  `to_json()` on every crash point (harness/props/C09.py `_codec_diffs`).
+-/
+theorem roundtrip_resume_eq_codec_partial {K : Type} [Add K] [Sub K] [Mul K] [Div K] [Neg K] [LT K] [LE K]
+    [DecidableLT K] [DecidableLE K] [OfNat K 0] [OfNat K 1] [NatCast K] [HasExp K]
+    (sh : RegistrySim.Show K) (cfg : Sim.Cfg K) (sched : View K → Except EventCore.Err (Schedule K))
+    (decode : Store → Id → Option (State K))
+    (hlocal : ∀ st st', (∀ j, Reach st RegistrySim.root j → st'.get j = st.get j) →
+      decode st' RegistrySim.root = decode st RegistrySim.root)
+    (hinv : ∀ s, decode (RegistrySim.encode sh cfg s) RegistrySim.root = some s) (s : State K) :
+    ∃ ctx, dump (RegistrySim.encode sh cfg s) RegistrySim.root = .ok ctx ∧ load ctx RegistrySim.root = .ok ctx ∧
+      decode ctx RegistrySim.root = some s ∧
+      ∀ n, (decode ctx RegistrySim.root).map (run cfg sched n) = some (run cfg sched n s) :=
+  roundtrip_resume_eq_partial cfg sched (RegistrySim.encode sh cfg) decode RegistrySim.root hlocal hinv s
+    (RegistrySim.encode_acyclic sh cfg s) (RegistrySim.encode_closed sh cfg s)
 
 /-! ### non-vacuity: an EV shared by its station, `ev_history` and its pending UnplugEvent -/
 
